@@ -11,6 +11,8 @@
 //   * when BnB / CoinGrinder report a complete search and the pool has <= nmax groups: brute force over all 2^n group subsets
 //     finds no subset meeting the same constraints with strictly lower waste (own formula: sum(fee - long_term_fee) + excess)
 //     respectively strictly lower weight.
+//     A BnB witness is classified by two exact mechanism predicates over ALL better subsets (see "Better =" below): both are
+//     genuine deviations from the statement that are listed in known_findings.json; anything else is reported as `bnb-not-optimal`.
 // The pool, parameters and selections are logged; Python re-validates them and repeats the brute force for pools <= 12 groups.
 #include <common/vh.h>
 
